@@ -20,6 +20,8 @@ type modelEffect struct {
 var models map[string]modelFn
 var modelEffects map[string]modelEffect
 
+const sbHeap = "SB.content"
+const sbSort = "(Array Int RSeq)"
 const listLenHeap = "L.len"
 const listValHeap = "H.list.Element.Value"
 
@@ -171,6 +173,43 @@ func init() {
 
 	def("strings.EqualFold", none, func(g *gen, st *state, c *ssa.CallCommon, a []string, in ssa.Instruction) []string {
 		return []string{app("equalFold", a[0], a[1])}
+	})
+
+	// ---- strings.Builder: ghost content as a rune sequence (spec/runes.smt2) -------------------------
+	sbW := modelEffect{strong: []string{sbHeap}}
+	def("(*strings.Builder).Grow", none, func(g *gen, st *state, c *ssa.CallCommon, a []string, in ssa.Instruction) []string {
+		if g.opts.safety {
+			g.obligeAssume("panic", "strings.Builder.Grow negative count", in.Pos(), app(">=", a[1], "0"), nil)
+		}
+		return nil
+	})
+	def("(*strings.Builder).WriteRune", sbW, func(g *gen, st *state, c *ssa.CallCommon, a []string, in ssa.Instruction) []string {
+		h := g.heapVar(st, sbHeap, sbSort)
+		g.setHeap(st, sbHeap, sbSort, app("store", h, a[0], app("snoc", app("select", h, a[0]), a[1])))
+		n := g.newConst("n", "Int")
+		return []string{n, "(mk-iface 0 0)"}
+	})
+	def("(*strings.Builder).WriteByte", sbW, func(g *gen, st *state, c *ssa.CallCommon, a []string, in ssa.Instruction) []string {
+		h := g.heapVar(st, sbHeap, sbSort)
+		g.setHeap(st, sbHeap, sbSort, app("store", h, a[0], app("snoc", app("select", h, a[0]), a[1])))
+		return []string{"(mk-iface 0 0)"}
+	})
+	def("(*strings.Builder).WriteString", sbW, func(g *gen, st *state, c *ssa.CallCommon, a []string, in ssa.Instruction) []string {
+		h := g.heapVar(st, sbHeap, sbSort)
+		g.setHeap(st, sbHeap, sbSort, app("store", h, a[0], app("rapp", app("select", h, a[0]), app("runesOf", a[1]))))
+		n := g.newConst("n", "Int")
+		return []string{n, "(mk-iface 0 0)"}
+	})
+	def("(*strings.Builder).String", none, func(g *gen, st *state, c *ssa.CallCommon, a []string, in ssa.Instruction) []string {
+		h := g.heapVar(st, sbHeap, sbSort)
+		s := g.newConst("built", "String")
+		g.assert(sAnd(sEq(app("runesOf", s), app("select", h, a[0])), sEq(app("runeCount", s), app("rlen", app("select", h, a[0])))))
+		return []string{s}
+	})
+	def("(*strings.Builder).Len", none, func(g *gen, st *state, c *ssa.CallCommon, a []string, in ssa.Instruction) []string {
+		n := g.newConst("sblen", "Int")
+		g.assert(app(">=", n, "0"))
+		return []string{n}
 	})
 
 	// ---- time -----------------------------------------------------------------------------------------
